@@ -119,7 +119,9 @@ def c16(ctx):
 
 def design_model(ctx):
     from vf import pipeline
-    c_req = dict(Procs="{1, 2}", Attrs="{1, 2}", NCalls="2", RefreshUnderTxLock="TRUE", Atomic="TRUE")
-    res, _ = pipeline.model_check(ctx, "StoreMP", "storemp-required", c_req,
-                                  invariants=["NoLostCommittedUpdate", "CrashOldOrNew"], view=None, timeout=1200)
+    c_req = dict(Procs="{1, 2}", NCalls="2", Kinds='{"set", "destroy", "get", "find"}', Reload="{TRUE}", Recreate="{FALSE}",
+                 Atomic="TRUE")
+    res, _ = pipeline.model_check(ctx, "StoreMP", "storemp-required", c_req, spec="CrashSpec",
+                                  invariants=["NoLostCommittedUpdate", "CrashOldOrNew", "DestroyedStaysDestroyed"],
+                                  timeout=1200)
     return dict(states=res.distinct, transitions=res.generated)
